@@ -28,7 +28,9 @@ def build_impl(r, q):
     try:
         c = r.build_command(DeviceState.ON if on else DeviceState.OFF, ThermostatMode[mode], target, ThermostatFanLevel[fan],
                             ThermostatSwing.ON if swing else ThermostatSwing.OFF, None if cur is None else (DeviceState.ON if cur else DeviceState.OFF))
-        return "ok " + c.length + "|" + c.command
+        text = "ok " + c.length + "|" + c.command
+        world.scribble(c)          # the command object is the caller's
+        return text
     except Exception as e: return "exc:" + world.exc_name(e)
 
 
